@@ -17,7 +17,7 @@ import (
 
 // ---- C18: Mixin keeps operation ids unique ----
 
-var c18IDs = []string{"", "-", "A", "B"} // absent, id-less, id A, id B
+var c18IDs = []string{"", "-", "A", "B", "CMixin1"} // absent, id-less, id A, id B, an id that merely looks renamed (no id "C" exists anywhere)
 
 func c18Doc(x *mcx.Exec, tag string, sharedPath bool) (J, bool) {
 	paths := J{}
@@ -30,7 +30,11 @@ func c18Doc(x *mcx.Exec, tag string, sharedPath bool) (J, bool) {
 		}
 		item := J{}
 		for _, m := range methods7 {
-			st := c18IDs[x.Choose(mcx.INPUT, len(c18IDs), tag+"."+pkey+"."+m)]
+			ids := c18IDs[:4]
+			if m == "get" {
+				ids = c18IDs // the renamed-looking id only under GET (the method is irrelevant to it)
+			}
+			st := ids[x.Choose(mcx.INPUT, len(ids), tag+"."+pkey+"."+m)]
 			if st == "" {
 				continue
 			}
